@@ -136,7 +136,10 @@ def contracts(tier):
         cfgs = [(8, 0, 0, True, False), (8, 0, 1, True, False), (8, 1, 0, False, False), (8, 1, 1, True, True),
                 (3, 0, 1, True, False), (5, 0, 0, True, False), (6, 1, 1, False, False), (1, 0, 1, True, False)]
     else:
-        cfgs = [(ws, pol, pha, msb, False) for ws in range(1, 18) for (pol, pha) in ((0, 0), (0, 1), (1, 0), (1, 1)) for msb in (True, False)]
+        allm = [(pol, pha, msb) for (pol, pha) in ((0, 0), (0, 1), (1, 0), (1, 1)) for msb in (True, False)]
+        cfgs = [(ws, pol, pha, msb, False) for ws in (5, 8) for (pol, pha, msb) in allm]
+        for ws in (1, 2, 3, 4, 6, 7, 9, 10, 11, 12, 13, 15, 16, 17):           # every size in both phases, modes rotated
+            cfgs += [(ws, ws % 2, 0, ws % 3 != 0, False), (ws, (ws + 1) % 2, 1, ws % 4 != 1, False)]
         cfgs += [(8, 0, 0, True, True), (5, 0, 1, True, True), (32, 0, 1, True, False), (32, 0, 0, True, False), (24, 1, 1, True, False)]
     for ws, pol, pha, msb, csh in cfgs:
         yield ("SPIDeviceInterface", f"w{ws}_cpol{pol}_cpha{pha}_{'msb' if msb else 'lsb'}{'_csn' if csh else ''}", make(ws, pol, pha, msb, csh))
